@@ -19,6 +19,7 @@ TREES: dict[str, list[str]] = {
     "T6a": ["P", "P.A", "P.A.X", "P.B", "P.B.Y", "P.C"],
     "T6b": ["P", "P.A", "P.A.X", "P.A.Z", "P.B", "P.C"],
     "T6c": ["P", "P.A", "P.A.X", "P.B", "Q", "Q.L"],
+    "T5h": ["P", "P.A", "P.A.X", "Q", "Q.L"],  # two roots, each with a descendant: related pairs on both sides
     "T4n": ["P", "P.A", "P.A.X", "P.B"],  # smallest tree with a module, its sub module and an unrelated sibling
     "T4r": ["P", "P.A", "P.B", "Q"],  # two roots
     "T5f": ["L", "P", "P.A", "P.B", "Q"],  # three roots, one sorting before and one after P's children
@@ -31,6 +32,8 @@ TREES: dict[str, list[str]] = {
 #      '_' variants; all legal Python identifiers.
 NAMINGS: dict[str, dict[str, str]] = {
     "neutral": {"P": "pq", "Q": "qk", "A": "xr", "B": "ys", "C": "zt", "D": "wu", "X": "mv", "Y": "nw", "Z": "oh", "L": "lj"},
+    # adv2: a package's name is contained in (prefix / substring of) the name of the package directly ABOVE it
+    "adv2": {"P": "aab", "Q": "b", "A": "aa", "B": "aaba", "C": "aa_", "D": "ba", "X": "a", "Y": "ab", "Z": "a_", "L": "bb"},
     "adv": {"P": "a", "Q": "aa", "A": "x", "B": "xy", "C": "x_y", "D": "xx", "X": "y", "Y": "yx", "Z": "y_", "L": "ax"},
 }
 
@@ -176,6 +179,25 @@ def unrelated_filter_sets(nodes: list[str], max_s: int, max_o: int, kinds=("name
             for no in range(1, max_o + 1):
                 for O in itertools.combinations(rest, no):
                     if any(related(a, b) for a, b in itertools.combinations(O, 2)):
+                        continue
+                    for sk in kinds:
+                        for ok in kinds:
+                            out.append((sk, S, ok, O))
+    return out
+
+
+def side_related_filter_sets(nodes: list[str], max_s: int, max_o: int, kinds=("named", "sub")):
+    """(s_kind, S, o_kind, O): every subject identifier unrelated to every object identifier, but at least one related
+    pair (a module together with one of its own descendants) INSIDE the subject list or inside the object list."""
+    out = []
+    for ns in range(1, max_s + 1):
+        for S in itertools.combinations(nodes, ns):
+            rest = [n for n in nodes if not any(related(n, s) for s in S)]
+            rel_s = any(related(a, b) for a, b in itertools.combinations(S, 2))
+            for no in range(1, max_o + 1):
+                for O in itertools.combinations(rest, no):
+                    rel_o = any(related(a, b) for a, b in itertools.combinations(O, 2))
+                    if not (rel_s or rel_o):
                         continue
                     for sk in kinds:
                         for ok in kinds:
